@@ -34,6 +34,19 @@ func c22Run(r *runCtx, id string, f []string) {
 	omitProg := f[3] == "1"
 	ms := decodeStore(f[4])
 	s, real, err := buildStore(ms)
+	if err == nil && len(ms) > 0 {
+		// the last metric is declared again with nothing changed, as a reload does: its label sets
+		// are carried over, and every export still shows each label set of each metric once
+		sm := ms[len(ms)-1]
+		again := metrics.NewMetric(sm.name, sm.prog, sm.kind, sm.typ, sm.keys...)
+		again.SetSource(sm.source)
+		for _, l := range sm.lsets {
+			if l.kind == 'b' {
+				again.Buckets = l.ranges
+			}
+		}
+		_ = s.Add(again)
+	}
 	if err != nil {
 		r.obs(id, "STORE-REFUSED")
 		r.ok(id)
@@ -388,7 +401,7 @@ func init() {
 			hosts := []string{"h", "host.example", "box-1"}
 			prefixes := []string{"", "pfx.", "a-b.", "p%d."}
 			for i := 0; i < n; i++ {
-				ms := genStore(g.r, storeGenOpts{maxMetrics: 5, noSeparator: g.r.chance(3, 4), utf8Only: true})
+				ms := genStore(g.r, storeGenOpts{maxMetrics: 5, noSeparator: g.r.chance(3, 4), utf8Only: true, twins: true})
 				g.emit("fmt", hx(hosts[g.r.intn(3)]), hx(prefixes[g.r.intn(4)]), strconv.Itoa(g.r.intn(2)), encodeStore(ms))
 			}
 		},
